@@ -766,8 +766,9 @@ class Proxy:
                 "sample": {"kind": "proxy", "cfg": self.cfg, "events": self.case["events"][:10]}}
 
 
-C19.rule = ("cases drawn from VERIF_SEED: 25% direct round trips (1-12 styled texts: 13 attributes, default/standard/256/24-bit colours, links), "
-            "75% proxy runs (1-7/14 styled lines over stdout+stderr, encoder-made or hand-written SGR with carry-over, torn at seeded positions biased "
+C19.rule = ("cases drawn from VERIF_SEED: 25% direct round trips (1-12 styled texts: 13 attributes, default/standard/256/24-bit colours, links; half of them printed with a base style through a console), "
+            "9% FileProxy over a console whose render hook fails chosen prints (Exception / BaseException; lines completed by a failed write may be missing, nothing else), "
+            "66% proxy runs (1-7/14 styled lines over stdout+stderr, encoder-made or hand-written SGR with carry-over, torn at seeded positions biased "
             "into escape sequences, with empty writes, flushes, sleeps and refreshes; Live or Progress; refresh thread in 40%); non-trivial = at least "
             "one text / one completed line; distinct = distinct (case, switch-signature)")
 C19.components_real = ["rich.ansi (AnsiDecoder)", "rich.file_proxy (FileProxy)", "rich.style / rich.color (encoder)", "rich.live", "rich.progress", "rich.console"]
@@ -775,6 +776,7 @@ C19.components_stub = ["terminal -> SimFile + dsim.term", "sys.stdout/sys.stderr
                        "threading primitives / scheduler / clock -> dsim"]
 C19.assumptions = ["lines are at most as wide as the console (wider lines are word-wrapped by rich and hard-wrapped by a terminal)",
                    "no CR/BS/VT/FF inside lines; a flush is generated only when the pending partial line holds no ESC",
-                   "hand-written SGR family restricted to codes both rich and the terminal model give the same meaning (no 6, 21, 26, 51-55, empty parameters)",
+                   "hand-written SGR family restricted to codes both rich and the terminal model give the same meaning (no 6, 21, 26, 51-55, empty parameters); hand-written hyperlinks are opened and closed by separate OSC 8 sequences, possibly lines apart",
+                   "lines wider than the console: layout (where rich wraps) is taken from a pristine print, completeness (no non-blank character lost) is checked independently",
                    "link ids are normalised (rich derives them from wall-clock time and global randomness)"]
 CHECK = C19()
